@@ -171,17 +171,21 @@ Proof. exact headers_status_documented. Qed.
 
 (* the body's validity against the documented schema is C08 (the published
    schema means what the type's own schema means) composed with the
-   schemars/serde agreement; one site where dropshot itself breaks it, finding
-   K7b: the body type Option<T>, T referenceable, is published as a bare
-   reference - the nullable marker beside the reference is dropped - so the
-   body of None, null, is not valid for the documented schema *)
-Theorem C07_K7b_nullable_lost : forall name r, j2oas name (option_ref_schema r) = Ok (ORef r).
-Proof. exact option_ref_nullable_lost. Qed.
+   schemars/serde agreement.  The one site where dropshot itself decides: a
+   body type Option<T> with T referenceable reaches the converter as
+   {$ref, nullable: true}; the published schema keeps the marker, so the body
+   of None, null, is valid, and any other body is valid exactly when it is
+   valid for T's component (finding K7b, repaired in /repo by 16fe29f: the bare
+   reference used to be published) *)
+Theorem C07_optional_ref_published : forall name r,
+  j2oas name (option_ref_schema r) = Ok (option_ref_oschema r).
+Proof. exact option_ref_published. Qed.
 
-Theorem C07_K7b_null_rejected : forall env pat_ok fmt_ok name r o,
-  env r JNull = false -> j2oas name (option_ref_schema r) = Ok o ->
-  valid_oas env pat_ok fmt_ok o JNull = false.
-Proof. exact option_ref_null_rejected. Qed.
+Theorem C07_optional_ref_body_valid : forall env pat_ok fmt_ok name r o,
+  j2oas name (option_ref_schema r) = Ok o ->
+  valid_oas env pat_ok fmt_ok o JNull = true /\
+  forall j, is_null j = false -> valid_oas env pat_ok fmt_ok o j = env r j.
+Proof. exact option_ref_accepts. Qed.
 
 (* ---- clause 3: framework error bodies are valid against the documented
    error schema, for every error, every request id, every interpretation of
@@ -251,8 +255,8 @@ Print Assumptions C07_missing_required_refused.
 Print Assumptions C07_success_status_documented.
 Print Assumptions C07_empty_iff_no_content.
 Print Assumptions C07_headers_status_documented.
-Print Assumptions C07_K7b_nullable_lost.
-Print Assumptions C07_K7b_null_rejected.
+Print Assumptions C07_optional_ref_published.
+Print Assumptions C07_optional_ref_body_valid.
 Print Assumptions C07_error_schema_published.
 Print Assumptions C07_framework_error_body_valid.
 Print Assumptions C07_into_response_body_valid.
